@@ -16,6 +16,7 @@ import (
 	"verif/harness/gen"
 	"verif/harness/oracle"
 	"verif/harness/rt"
+	"verif/harness/zoo"
 )
 
 // C09 — stream decoding equals buffer decoding for every chunking of the input.
@@ -481,6 +482,9 @@ func init() {
 				c09StringSweep(c, r)
 			case fam == 6:
 				c09SkipSweep(c, r)
+				if c.Idx%256 == 6 {
+					c09BigSkips(c)
+				}
 			case fam < 5:
 				// documents x destination types x chunkings
 				var doc []byte
@@ -701,6 +705,44 @@ func bsU(hex string) string { return "\\" + "u" + hex }
 // c09SkipSweep: documents for a struct destination with one member the destination does not have,
 // at every position (first, middle, last, in a nested struct, in an element of a slice of structs),
 // its value drawn from c09SkipValues or generated; every single cut and small fixed chunk sizes.
+// c09BigSkips: skipped values holding more containers than the nesting limit counts levels
+// (a depth counter that is not decremented overflows there), as unknown members, RawMessage and
+// Unmarshaler members and as elements beyond a fixed-size array, in a few chunkings.
+func c09BigSkips(c *rt.Ctx) {
+	rep := func(unit string, n int) string { return strings.TrimSuffix(strings.Repeat(unit+",", n), ",") }
+	vals := []string{"[" + rep("{}", 10050) + "]", "[" + rep("[]", 10050) + "]", "[" + rep(`{"k":[{}]}`, 5100) + "]", "{" + rep(`"k":[[]]`, 10050) + "}", "{" + rep(`"k":{"x":{}}`, 5100) + "}", "[" + rep(`["a","]"]`, 10050) + "]"}
+	type dst struct {
+		A int
+		R stdjson.RawMessage
+		U zoo.UP
+		F [1][]struct{}
+		B string
+	}
+	t := reflect.TypeOf(dst{})
+	sub := 0
+	for vi, val := range vals {
+		for mi, member := range []string{"zz", "R", "U", "F"} {
+			if member == "F" {
+				if val[0] != '[' {
+					continue
+				}
+				val = "[[]," + val + "]"
+			}
+			doc := []byte(`{"A":1,"` + member + `":` + val + `,"B":"x"}`)
+			tree, _ := oracle.Parse(doc)
+			sub = vi*100 + mi*10
+			if !c.Cur(sub, fmt.Sprintf("shapes=core\nbig skipped value %d as member %s (%d bytes)", vi, member, len(doc))) {
+				continue
+			}
+			for ci, cuts := range [][]int{nil, fixedCuts(len(doc), 4096), fixedCuts(len(doc), 511), {len(doc) / 2}} {
+				compareStreamBuffer(c, sub+ci, doc, tree, true, t, &chunkReader{data: doc, cuts: cuts, failAt: -1}, []string{"whole", "fixed=4096", "fixed=511", "single-cut"}[ci], -1)
+			}
+			c.NonTrivial("big-skip", fmt.Sprint(vi), member)
+		}
+	}
+	c.Obs("big_skip_documents", int64(len(vals)*4))
+}
+
 func c09SkipSweep(c *rt.Ctx, r *rand.Rand) {
 	vals := c09SkipValues()
 	t := reflect.TypeOf(c09SkipDst{})
